@@ -345,6 +345,25 @@ add_buffer_protocol (boost::python::class_<ArrayT> &classObj)
 }
 
 
+namespace {
+
+//  Classification of a struct-module format character.
+char
+formatKind (char c)
+{
+    switch (c)
+    {
+      case 'e': case 'f': case 'd':                               return 'f';
+      case 'b': case 'h': case 'i': case 'l': case 'q': case 'n': return 'i';
+      case 'B': case 'H': case 'I': case 'L': case 'Q': case 'N': return 'u';
+      case '?':                                                   return '?';
+      default:                                                    return 0;
+    }
+}
+
+} // anonymous
+
+
 template <class ArrayT>
 ArrayT *
 fixedArrayFromBuffer (PyObject *obj)
@@ -369,6 +388,25 @@ fixedArrayFromBuffer (PyObject *obj)
     {
         PyBuffer_Release(&view);
         throw std::invalid_argument ("Unsupported buffer type");
+    }
+
+    //  The element type (kind and size of the atoms) and the total size must
+    // be those of the array that is about to be filled.
+    using T = typename ArrayT::BaseType;
+    const char *fmt = view.format;
+    if (fmt[0] == '@' || fmt[0] == '<')
+        ++fmt;
+    if (view.itemsize != FixedArrayAtomicSize<T>::value ||
+        formatKind (fmt[0]) != formatKind (PyFormat<T>()[0]))
+    {
+        PyBuffer_Release(&view);
+        throw std::invalid_argument ("Buffer element type does not match the array type");
+    }
+    if (!view.shape || view.shape[0] < 0 ||
+        view.len != view.shape[0] * Py_ssize_t (sizeof(T)))
+    {
+        PyBuffer_Release(&view);
+        throw std::invalid_argument ("Buffer size does not match the array type");
     }
 
     ArrayT *array = new ArrayT (view.shape[0], PyImath::UNINITIALIZED);
